@@ -227,7 +227,9 @@ impl Sim {
 
     /// F15 exclusion: the first replication of a running server happens at tick >= 1, before any client connects.
     fn warm_up(&mut self) {
-        if self.cfg.no_exclusions {
+        // Manual: the first running frame increments the tick (see `server_frame`); EveryFrame: the library does.
+        // Only the timer-driven policy would replicate at tick 0 in its first running frame.
+        if self.cfg.no_exclusions || self.cfg.policy != 2 {
             return;
         }
         for _ in 0..8 {
@@ -894,6 +896,14 @@ impl Sim {
                 if !self.cfg.faults {
                     return;
                 }
+                self.step(&Step::ServerStop);
+                self.server_frame(false);
+                self.step(&Step::ServerStart);
+            }
+            Step::ServerStop => {
+                if !self.cfg.faults || !self.running {
+                    return;
+                }
                 self.flags.insert("server_restart");
                 for i in 0..nclients {
                     self.disconnect(i);
@@ -901,11 +911,6 @@ impl Sim {
                 self.server.world_mut().resource_mut::<RepliconServer>().set_running(false);
                 self.running = false;
                 self.squeue.clear();
-                self.server_frame(false);
-                self.server_frame(false);
-                self.server.world_mut().resource_mut::<RepliconServer>().set_running(true);
-                self.running = true;
-                self.snap_vals.clear();
                 for e in &mut self.semits {
                     if e.pending {
                         // buffered events do not survive a stop
@@ -914,7 +919,21 @@ impl Sim {
                         e.may.clear();
                     }
                 }
+                self.server_frame(false);
+            }
+            Step::ServerStart => {
+                if !self.cfg.faults || self.running {
+                    return;
+                }
+                if self.ops_since_tick > 0 {
+                    self.flags.insert("world_changed_while_stopped");
+                }
+                self.server.world_mut().resource_mut::<RepliconServer>().set_running(true);
+                self.running = true;
+                self.snap_vals.clear();
                 self.locked.iter_mut().for_each(|l| *l = false);
+                self.sent_parents = self.parents.clone();
+                self.ops_since_tick = 0;
                 self.warm_up();
             }
             Step::JunkAck { client, ref bytes } => {
@@ -1315,6 +1334,12 @@ impl Sim {
 
     /// Quiescence: stop world operations, (re)connect and authorize everybody, lock-step rounds.
     pub fn settle(&mut self) {
+        if !self.running {
+            let faults = self.cfg.faults;
+            self.cfg.faults = true;
+            self.step(&Step::ServerStart);
+            self.cfg.faults = faults;
+        }
         let rounds = 6 + 2 * self.cfg.period as usize;
         for i in 0..self.clients.len() {
             self.connect(i);
